@@ -2,7 +2,7 @@
 # try_seed.sh <seed-dir> <prop> [<prop>...]: apply the seeded change to /repo, run the quick checks, undo
 D="$1"; shift
 cd /repo && git diff --quiet || { echo "/repo not clean"; exit 2; }
-git -C /repo apply "$D/patch.diff" 2>/dev/null || git -C /repo apply --3way "$D/patch.diff" || { echo "patch does not apply"; git -C /repo checkout -- .; exit 2; }
+git -C /repo apply "$D/patch.diff" 2>/dev/null || git -C /repo apply --3way "$D/patch.diff" || { echo "patch does not apply"; git -C /repo reset -q --hard; exit 2; }
 for P in "$@"; do
   OUT=$(cd /verif && ./check $P quick 2>&1); RC=$?
   echo "$(basename $D) -> $P: exit=$RC $(echo "$OUT" | grep -E '^violation|^VIOLATION|harness' | head -2 | cut -c1-260)"
